@@ -99,7 +99,7 @@ def layerDomain : Err → Option Str
 def getDomain (e : Err) : Str := ((chain e).findSome? layerDomain).getD noDomain
 
 def layerTags : Err → Option (List (Str × Str))
-  | .wrap _ (.withContext t _) _ => some t
+  | .wrap _ (.withContext t _ _) _ => some t
   | _ => none
 def getContextTags (e : Err) : List (List (Str × Str)) := (chain e).filterMap layerTags
 
